@@ -232,7 +232,7 @@ PROPS = {
                 "(round trip: parses to what it denotes); ~120 (quick) queries x populations of 10..30 bugs through RepoCacheBug.Query vs "
                 "the model; full-text search over >10 matching bugs on the bleve index; non-trivial = distinct strings / populations",
         "trusted_base": [KERNEL, TIE, "model: GitBugModel.Query (splitFunc, tokenize, parse, matchesQ, less, sortBy, run) for query/*.go, cache/filter.go, sorters"],
-        "assumptions": ["within one repository sort keys are distinct (creation/edit Lamport times are unique per repository), so the order is fully determined; with ties the order among equals is unspecified"],
+        "assumptions": ["within one repository sort keys are distinct (creation/edit Lamport times are unique per repository); every other population is written on two replicas and pulled together so that the clocks tie and the timestamp tie-break decides (timestamps are generated distinct: among bugs equal in clock and timestamp the order is unspecified, sort.Sort is not stable)"],
         "gen_facts": [],
     },
     "C04": {
